@@ -1,8 +1,8 @@
 \* C14 object store with two objects: every pair (obj, kept) reachable by Copy and assignments,
-\* closed up to Len(full_version) <= MaxLen (thorough: 7); CopyIndependent, KeptConsistent
+\* closed up to Len(full_version) <= MaxLen (thorough: 5); CopyIndependent, KeptConsistent
 CONSTANTS
   Alphabet = {}
-  MaxLen = 7
+  MaxLen = 5
   StartStrings <- LtsStart
   AssignValues <- LtsValues
   Emit = FALSE
